@@ -155,6 +155,30 @@ def reset_coverage(ctx, fn, base, depth=0, seen=None):
                     if isinstance(o, dict) and o.get('k') == 'ref' and o.get('name') in loopvars:
                         cov.add(chain_to_path(ctx, base, loopvars[o['name']]))
                 continue
+            sfn = str(n.get('fn', ''))
+            if sfn.startswith(('std::for_each', 'std::fill', 'std::fill_n', 'std::generate')) and n.get('args'):
+                a0 = unwrap_casts(n['args'][0])
+                # X.begin() / std::begin(X) / X.data() / X
+                tgt0 = None
+                if isinstance(a0, dict) and a0.get('k') == 'call' and a0.get('name') in ('begin', 'data', 'cbegin'):
+                    tgt0 = a0.get('obj') if a0.get('obj') is not None else (a0.get('args') or [None])[0]
+                else:
+                    tgt0 = a0
+                ch = field_chain(tgt0) if tgt0 is not None else None
+                writes_elem = True
+                if sfn.startswith('std::for_each'):
+                    # the callable must write / reset its element
+                    writes_elem = False
+                    for x in walk(n['args'][-1]):
+                        if x.get('k') == 'lambda' and x.get('fn') in ctx.F['functions']:
+                            lam = ctx.F['functions'][x['fn']]
+                            for y in walk(lam.get('body')):
+                                if y.get('k') in ('assign',) or (y.get('k') == 'opcall' and y.get('op') == '=') \
+                                        or (y.get('k') == 'call' and y.get('name') in ('reset', 'clear', 'Reset', 'store')):
+                                    writes_elem = True
+                if ch and writes_elem:
+                    cov.add(chain_to_path(ctx, base, ch))
+                continue
             if name == 'memset' or str(n.get('fn', '')).startswith('memset') or str(n.get('fn', '')).startswith('std::memset'):
                 args = n.get('args', [])
                 ch = field_chain(args[0]) if args else None
